@@ -52,7 +52,8 @@ def run(ctx) -> None:
     ctx.check(ok, "C20.R1", "render: starts at the root", m.path, render.lineno, "rendering must draw the hierarchy from hugr.root", render)
     vps = [p for p in ctx.paths(f"{DQ}._viz_node", bound=4096) if p.kind != "raise"]
     op_txt = f"{nh_}[{np_}].op"
-    ok_one = ok_name = ok_label = ok_disp = ok_cluster = bool(vps)
+    ok_one = ok_name = ok_label = ok_disp = ok_cluster = ok_meta = bool(vps)
+    f_meta = ""
     rows_ok = {"inputs_row": bool(vps), "outputs_row": bool(vps)}
     seen_branch = set()
     for p in vps:
@@ -85,6 +86,15 @@ def run(ctx) -> None:
         lc = labels[0]
         nl, ir, orow = kwarg(lc, "node_label"), kwarg(lc, "inputs_row"), kwarg(lc, "outputs_row")
         ok_label = ok_label and nl is not None and ir is not None and orow is not None
+        # metadata lines: every entry, key and value formatted whatever their type
+        ndat = kwarg(lc, "node_data")
+        md = f"{nh_}[{np_}].metadata"
+        want_md = f"'<BR/><BR/>' + '<BR/>'.join((f'{{c0}}: {{c1}}' for c0, c1 in {md}.items()))"
+        got_md = unold(ndat) if ndat is not None else None
+        ok_meta = ok_meta and got_md in ("''", want_md, f"{want_md} if {md} else ''", f"{want_md} if len({md}) > 0 else ''",
+                                         f"{want_md} if [f'{{c0}}: {{c1}}' for c0, c1 in {md}.items()] else ''")
+        if got_md not in ("''", None) and ok_meta is False and not f_meta:
+            f_meta = got_md
         # display name: the definition's short name for extension ops unless qualified names are configured
         ext = [k for t, k in p.tests if unold(t) == f"isinstance({op_txt}, AsExtOp)"]
         qual = [k for t, k in p.tests if u(t) == "self.config.qualify_op_name"]
@@ -112,6 +122,9 @@ def run(ctx) -> None:
               "node statements must be named str(node.idx) -- the name the edge endpoints refer to -- and carry the label", vn)
     ctx.check(ok_label, "C20.R1", "_viz_node: label carries the display name and both port rows", m.path, vn.lineno, "", vn)
     ctx.check(ok_disp, "C20.R1", "_viz_node: display name from the node's own op", m.path, vn.lineno, "", vn)
+    ctx.check(ok_meta, "C20.R1", "_viz_node: metadata lines format any key and value", m.path, vn.lineno,
+              "every metadata entry is shown as `key: value` with both formatted (f-string / str): metadata values are arbitrary JSON, joining them as "
+              "strings raises for numbers, booleans, None and lists", vn, found=f_meta[:300])
     ctx.check(ok_cluster, "C20.R1", "_viz_node: one cluster per parent, every child recursed inside it", m.path, vn.lineno,
               "a node with children opens cluster<idx> and draws each child (no filter) into that cluster, so clusters nest as the hierarchy does", vn)
     # ---- R2
